@@ -142,22 +142,36 @@ def _observe(ctx):
         obs["count"] = list(ex.map(count, files))
 
     # ---------- both tools together on stub batch files (lines without project= fail fast, not fatally) ----------
-    nfiles = 40 if ctx.thorough else 12
+    nfiles = 60 if ctx.thorough else 24
+    # every generated line j is "project=p plotNr=1 CropFile=x c_Zq<j>=1": hermes.Run rejects the crop parameter name
+    # "Zq<j>" with a non-fatal error BEFORE touching any file, and the error text names j — so the simulator's output
+    # tells which LINE TEXT each log id executed (blank lines that get dispatched show up as "arguments required")
+    FIXED = [["L", "\r\n", "", "\r\n", "L", "\r\n", "L", "\r\n", "L", "\r\n"],           # CRLF, blank in the middle
+             ["", "\r\n", "L", "\r\n", "", "\r\n", "", "\r\n", "L", "\r\n", "L"],        # CRLF, leading blanks, no final newline
+             ["L", "\n", "", "\n", "L", "\r\n", "", "\r\n", "L", "\n", "L", "\r\n", "", "\r\n"],   # mixed
+             ["L", "\n", "", "\n", "", "\n", "L", "\n", "L"]]                                  # LF
 
     def stub(i):
         r = random.Random(ctx.seed * 1000003 + i)
-        nl = r.randint(1, 14)
-        mode = r.randint(0, 2)
         parts, expect = [], 0
-        for j in range(nl):
-            blank = r.random() < 0.3
-            parts.append("" if blank else "x=%d" % j)
-            expect += 0 if blank else 1
-            if j == nl - 1 and r.random() < 0.3:
-                break
-            parts.append("\r\n" if mode == 1 or (mode == 2 and r.random() < 0.5) else "\n")
+        if i < len(FIXED):
+            for tok in FIXED[i]:
+                if tok == "L":
+                    parts.append("project=p plotNr=1 CropFile=x c_Zq%d=1" % expect)
+                    expect += 1
+                else:
+                    parts.append(tok)
+        else:
+            nl = r.randint(1, 14)
+            mode = r.randint(0, 2)
+            for j in range(nl):
+                blank = r.random() < 0.3
+                parts.append("" if blank else "project=p plotNr=1 CropFile=x c_Zq%d=1" % expect)
+                expect += 0 if blank else 1
+                if j == nl - 1 and r.random() < 0.3:
+                    break
+                parts.append("\r\n" if mode == 1 or (mode == 2 and r.random() < 0.5) else "\n")
         data = "".join(parts)
-        # the unterminated rest may be blank: then nothing was added to expect
         f = os.path.join(work, "stub%d.txt" % i)
         with open(f, "wb") as fh:
             fh.write(data.encode())
@@ -169,8 +183,10 @@ def _observe(ctx):
             runs = []
             for (a, b) in (ranges or []):
                 rc3, o3, e3 = _run([h2g, "-module", "batch", "-concurrent", "2", "-logoutput", "-batch", f, "-lines", "%d-%d" % (a, b)])
-                ids = [int(m) for m in re.findall(r"(?m)^\[(\d+)\]$", o3)]
-                runs.append({"a": a, "b": b, "ids": ids, "rc": rc3, "tail": (o3 + e3)[-200:] if rc3 else ""})
+                head, _, summary = o3.partition("Error Summary:")
+                ids = [int(m) for m in re.findall(r"(?m)^\[(\d+)\]$", head)]
+                which = {int(m.group(1)): int(m.group(2)) for m in re.finditer(r"(?m)^\[(\d+)\] Error: invalid crop parameter name: Zq(\d+)\s*$", summary)}
+                runs.append({"a": a, "b": b, "ids": ids, "lines": [which.get(x) for x in ids], "rc": rc3, "tail": (o3 + e3)[-200:] if rc3 else ""})
             out.append({"file": data, "n": expect, "K": K, "size": sz, "list": o[:300], "ranges": ranges, "runs": runs})
         return out
 
@@ -252,8 +268,10 @@ def correspond(ctx):
             if r["rc"] != 0:
                 c.mismatches.append({"kind": "dispatch", "what": "hermes2go -lines %d-%d exited %d: %s" % (r["a"], r["b"], r["rc"], r["tail"])})
                 continue
-            dcs.append(("(%d, [%s])" % ((d["n"] << 40) + (r["a"] << 20) + r["b"], "; ".join(map(str, r["ids"]))),
-                        "n=%d -lines %d-%d -> %s" % (d["n"], r["a"], r["b"], r["ids"])))
+            NOLINE = (1 << 20) - 1      # the log id executed something that is none of the generated lines (e.g. a blank line)
+            pairs = ["%d" % ((i << 20) + (NOLINE if j is None or j >= NOLINE else j)) for i, j in zip(r["ids"], r["lines"])]
+            dcs.append(("(%d, [%s])" % ((d["n"] << 40) + (r["a"] << 20) + r["b"], "; ".join(pairs)),
+                        "n=%d -lines %d-%d -> ids %s lines %s" % (d["n"], r["a"], r["b"], r["ids"], r["lines"])))
     if dcs:
         index["Cases_C17_disp"] = [x[1] for x in dcs]
         items.append(("Cases_C17_disp", "\n".join(hdr + [
@@ -301,8 +319,13 @@ def oracle(ctx, search):
     for d in obs["disp"]:
         defect = _cover_defect(d["n"], d["size"], d["ranges"]) if d["n"] >= 1 else None
         ids = [i for r in d["runs"] for i in r["ids"]]
+        texts = [j for r in d["runs"] for j in r["lines"]]
         if defect is None and d["n"] >= 1 and ids != list(range(d["n"])):
             defect = "log ids started over all ranges: %s, expected each of 0..%d once" % (ids, d["n"] - 1)
+        if defect is None and d["n"] >= 1 and texts != list(range(d["n"])):
+            times = {j: texts.count(j) for j in range(d["n"])}
+            defect = ("batch lines executed over all ranges: %s (None = a run that is none of the non-empty lines); every non-empty line "
+                      "0..%d must be executed exactly once, counts %s" % (texts, d["n"] - 1, times))
         if defect is None and any(r["rc"] != 0 for r in d["runs"]):
             defect = "hermes2go aborted on a printed range"
         if defect:
